@@ -371,7 +371,8 @@ func (t *t7) stmts(list []ast.Stmt) {
 					return
 				}
 				call, ok := as.Rhs[0].(*ast.CallExpr)
-				sel, ok2 := (ast.Expr(nil)).(*ast.SelectorExpr), false
+				var sel *ast.SelectorExpr
+				ok2 := false
 				if ok {
 					sel, ok2 = call.Fun.(*ast.SelectorExpr)
 				}
